@@ -48,10 +48,8 @@ func c15Interpret(es []gen.TarEntry) c15Model {
 		if e.Name == "" {
 			continue
 		}
-		n := e.Name
-		if strings.HasPrefix(n, "/") {
-			n = n[1:]
-		}
+		// however many slashes a name begins with, it is read below the destination
+		n := strings.TrimLeft(e.Name, "/")
 		rel := path.Clean(n)
 		if e.Type == "xglobal" {
 			// header records are not extracted; one with a hostile name may
@@ -135,8 +133,18 @@ func c15Interpret(es []gen.TarEntry) c15Model {
 			}
 		case "link":
 			if ex != nil && ex.Kind != "link" {
-				m.Undefined = "link entry over existing " + ex.Kind + " " + rel
-				return m
+				// a link entry for a path that already holds a file or a
+				// directory: implementations may refuse (not judged); one
+				// that accepts must put the link there and nothing else.
+				// A directory that already has entries below it cannot be
+				// replaced in any defined way.
+				for q := range m.Tree {
+					if strings.HasPrefix(q, rel+"/") {
+						m.Undefined = "link entry over the non-empty directory " + rel
+						return m
+					}
+				}
+				m.OverLink = "link entry over existing " + ex.Kind + " " + rel
 			}
 			m.Tree[rel] = &mnode{Kind: "link", Target: e.Link, Explicit: true}
 		}
@@ -251,7 +259,7 @@ func c15Alphabet() []gen.TarEntry {
 	return []gen.TarEntry{
 		f("a", "1", 0644), f("a", "22", 0444), f("a", "", 0000), f("./a", "333", 0755), f("/a", "4", 0600),
 		f("a/b", "5", 0644), f("a/b", "66", 0444), f("a/b/c", "7", 0644), f("d", "8", 0400), f("a/b/c", "", 0000),
-		d("a", 0755), d("a/", 0555), d("a", 0700), d("a/b", 0755), d("a/b/", 0500), d("d", 0555), d("./a/", 0711), d("d/", 0000),
+		d("a", 0755), d("a/", 0555), d("a", 0700), d("a/b", 0755), d("a/b/", 0500), d("d", 0555), d("./a/", 0711), d("d/", 0000), d("a", 0600),
 		l("a", "d"), l("d", "a/b"), l("a/b", "../d"), l("d", "a"), l("a/b/c", "../../d"), l("a", "missing"),
 		{Name: "a", Type: "hard", Link: "d", Mode: 0644}, {Name: "d", Type: "fifo", Mode: 0644}, {Name: "a/b", Type: "char", Mode: 0644},
 		{Type: "xglobal", PAX: map[string]string{"comment": "global header", "VERIF.note": "x"}},
@@ -314,7 +322,7 @@ func c15Run(env *fw.Env, c c15Case) fw.Result {
 		if e.Type == "xglobal" {
 			continue
 		}
-		p := path.Clean(strings.TrimPrefix(e.Name, "/"))
+		p := path.Clean(strings.TrimLeft(e.Name, "/"))
 		seen[p]++
 		for q := range seen {
 			if strings.HasPrefix(q, p+"/") && e.Type == "dir" {
@@ -354,6 +362,15 @@ func c15Run(env *fw.Env, c c15Case) fw.Result {
 		res.Class = "entry-over-link:refused"
 		return res
 	}
+	if uerr != nil && env.Unpriv {
+		if u := c15Unsearchable(es); u != "" {
+			// without privileges the metadata of a directory below one that
+			// its owner may not search cannot be set once the upper one has
+			// got its recorded mode: a refusal is not judged, a success is
+			res.Class = "directory-below-unsearchable-directory:refused"
+			return res
+		}
+	}
 	if uerr != nil {
 		res.Class = "error"
 		// a conflict-free, representable sequence must unpack
@@ -383,6 +400,24 @@ func c15Run(env *fw.Env, c c15Case) fw.Result {
 		res.Msg = "destination differs from the sequential reading of the archive:\n  " + strings.Join(diffs, "\n  ")
 	}
 	return res
+}
+
+// c15Unsearchable names a directory entry whose recorded mode lacks the
+// owner's search bit while another directory entry lies below it.
+func c15Unsearchable(es []gen.TarEntry) string {
+	clean := func(n string) string { return path.Clean(strings.TrimLeft(n, "/")) }
+	for _, e := range es {
+		if e.Type != "dir" || e.Mode&0100 != 0 {
+			continue
+		}
+		up := clean(e.Name)
+		for _, f := range es {
+			if f.Type == "dir" && (up == "." && clean(f.Name) != "." || strings.HasPrefix(clean(f.Name), up+"/")) {
+				return e.String()
+			}
+		}
+	}
+	return ""
 }
 
 func c15Classify(diffs []string) string {
@@ -424,7 +459,7 @@ func c15RandomSeq(r *fw.Rand) c15Case {
 		e := gen.TarEntry{Name: names[r.Intn(len(names))]}
 		// mostly keep the sequence conflict-free: a path keeps its kind and
 		// nothing is placed below a file or link
-		clean := func(n string) string { return path.Clean(strings.TrimPrefix(n, "/")) }
+		clean := func(n string) string { return path.Clean(strings.TrimLeft(n, "/")) }
 		forced := ""
 		for tries := 0; tries < 8 && !r.Chance(1, 10); tries++ {
 			p := clean(e.Name)
@@ -465,7 +500,7 @@ func c15RandomSeq(r *fw.Rand) c15Case {
 			e.Mode = []int64{0644, 0444, 0000, 0755, 0600, 0400, 0777, 0640}[r.Intn(8)]
 		case 5, 6, 7:
 			e.Type = "dir"
-			e.Mode = []int64{0755, 0555, 0700, 0711, 0500, 0775}[r.Intn(6)]
+			e.Mode = []int64{0755, 0555, 0700, 0711, 0500, 0775, 0755, 0700, 0600, 0000}[r.Intn(10)]
 			if r.Chance(1, 2) {
 				e.Name += "/"
 			}
